@@ -529,8 +529,31 @@ func TestVerifC05Corrupt(t *testing.T) {
 			// the mapping ends exactly at the end of the file, in the middle of whatever record lies there
 			data = data[:rapid.IntRange(1, len(data)/4096).Draw(t, "truncOSPages")*4096]
 		}
+		largeHead := ""
+		// One case in eight: the file is large at rest (its tail a hole of zeros, as left by a process that reserved
+		// much and was killed, or by a copy). Offsets and lengths that are out of range for a file of a page or two
+		// lie inside this one, and sums of them that wrap around 32 bits land inside it as well.
+		large := len(data) >= vformat.Page && rapid.IntRange(0, 7).Draw(t, "largeAtRest") == 0
+		if large && rapid.Bool().Draw(t, "largeHostileHead") {
+			if vf0, err := vformat.Decode(data); err == nil {
+				name := names[rapid.IntRange(0, len(names)-1).Draw(t, "largeHeadOf")]
+				v := rapid.OneOf(rapid.Uint32Range(0xFFFFFFE0, 0xFFFFFFFF), rapid.Uint32Range(0x00700000, 0x00800000)).Draw(t, "largeHead")
+				if off := int(vf0.HdrLen + 4 + 4*vformat.Bucket(name)); off+4 <= len(data) {
+					binary.LittleEndian.PutUint32(data[off:], v)
+					largeHead = name
+					kind += "+head"
+				}
+			}
+		}
 		if err := os.WriteFile(path, data, 0666); err != nil {
 			t.Fatal(err)
+		}
+		if large {
+			if err := os.Truncate(path, rapid.SampledFrom([]int64{8 << 20, 16<<20 + 16384, 24 << 20}).Draw(t, "restSize")); err != nil {
+				t.Fatal(err)
+			}
+			kind += "+large"
+			vstats.Label("largeAtRest")
 		}
 		wellFormedAfter := false
 		if vf, err := vformat.Decode(data); err == nil && len(vf.Validate()) == 0 && c05ZeroFrom(data, vf.HdrLen, vf.Limit) {
@@ -569,14 +592,17 @@ func TestVerifC05Corrupt(t *testing.T) {
 			}
 			adds = append(adds, add{name, int64(rapid.IntRange(1, 9).Draw(t, "n"))})
 		}
+		if largeHead != "" {
+			adds = append(adds, add{largeHead, 1})
+		}
 		counters := map[string]*Counter{}
 		begun := map[string]uint64{}
 		ctl := vhook.New()
 		// Every chain walk is bounded by the number of records that fit into the mapping, and a damaged limit can
 		// make the library grow the file (the harness cuts growth off at 64 MiB): the budget is several walks of the
 		// largest possible mapping per operation. It is a bound on "unbounded", not a performance requirement.
-		ctl.TickBudget = int64((64<<20)/32+1024) * 8 * int64(nops+2)
-		ctl.CallBudget = 200 * (nops + 2) // opening takes about 15 intercepted calls, an Add at most 10 re-mappings of 5 calls each
+		ctl.TickBudget = int64((64<<20)/32+1024) * 8 * int64(len(adds)+2)
+		ctl.CallBudget = 200 * (len(adds) + 2) // opening takes about 15 intercepted calls, an Add at most 10 re-mappings of 5 calls each
 		pv, stack := ctl.Direct(func() {
 			f2.rotate1()
 			for _, a := range adds {
